@@ -613,3 +613,22 @@ Definition scan_selected (air : list (Z * Z * list Z)) (addr : list Z) (links : 
 
 (* what `x or DR_2MPS` does to a rate: 0 (DR_250KPS) is falsy *)
 Definition falsy_or_2m (r : Z) : Z := if r =? 0 then 2 else r.
+
+(* ---------------------------------------------------------------- histories of init_drivers calls *)
+(* cflib.crtp.CLASSES is a module-level list; every init_drivers(enable_serial_driver=b) call APPENDS its drivers
+   (a second call appends the same classes again; enable_debug_driver only logs a warning; USE_CFLINK other than
+   'cpp' is the normal path).  get_link_driver walks the list in order, so a class listed twice is just tried twice. *)
+Fixpoint init_from (cls : list driver) (calls : list bool) : list driver :=
+  match calls with
+  | [] => cls
+  | b :: r => init_from (cls ++ classes b) r
+  end.
+Definition init_history (calls : list bool) : list driver := init_from [] calls.
+
+(* the distinct driver classes of a list that claim the URI *)
+Fixpoint dedup (l : list driver) : list driver :=
+  match l with
+  | [] => []
+  | d :: r => if existsb (driver_eqb d) r then dedup r else d :: dedup r
+  end.
+Definition claimants (cls : list driver) (uri : str) : list driver := dedup (filter (fun d => claims d uri) cls).
